@@ -4,8 +4,8 @@ import (
 	"fmt"
 	"os"
 	"path/filepath"
-	"strings"
 	"strconv"
+	"strings"
 	"time"
 
 	"verif/internal/harness"
@@ -14,30 +14,30 @@ import (
 
 // Tier describes the bounded spaces of one tier of the program × input sweep.
 type Tier struct {
-	PN       int // pattern ASTs up to this many nodes
-	SK       int // seed neighbourhood edits (-1 = no seeds)
-	LASCII   int // haystack symbols over SigmaASCII
-	LBig     int // symbols over SigmaASCII for the large P patterns (more than EmbedPN nodes); 0 = LASCII
-	LUTF8    int // over SigmaUTF8
-	LRaw     int // over SigmaRaw
-	EmbedW   int // embeddings: max |w| over SigmaUTF8 (-1 = none)
-	EmbedPN  int // embeddings are applied to P patterns with at most this many AST nodes (0 = all)
+	PN       int   // pattern ASTs up to this many nodes
+	SK       int   // seed neighbourhood edits (-1 = no seeds)
+	LASCII   int   // haystack symbols over SigmaASCII
+	LBig     int   // symbols over SigmaASCII for the large P patterns (more than EmbedPN nodes); 0 = LASCII
+	LUTF8    int   // over SigmaUTF8
+	LRaw     int   // over SigmaRaw
+	EmbedW   int   // embeddings: max |w| over SigmaUTF8 (-1 = none)
+	EmbedPN  int   // embeddings are applied to P patterns with at most this many AST nodes (0 = all)
 	SeedJ    []int // right-pad lengths of the seed embeddings
-	TokL     int // seed haystacks: sequences of ≤ TokL tokens
-	TokN     int // token alphabet size for seeds
-	SeedEmbW int // seed embeddings: |w| ≤ this many tokens
+	TokL     int   // seed haystacks: sequences of ≤ TokL tokens
+	TokN     int   // token alphabet size for seeds
+	SeedEmbW int   // seed embeddings: |w| ≤ this many tokens
 	Modes    []string
 	Budget   time.Duration
 }
 
 // Space is the materialised unit space of a tier.
 type Space struct {
-	T     Tier
-	Pats  []string // P(N) then S(k) \ P(N)
-	NP    int      // number of P patterns
-	HP    [][]byte // haystacks for P patterns (without embeddings)
-	HPE   [][]byte // haystacks for small P patterns (with embeddings)
-	NPE   int      // P patterns [0,NPE) get HPE
+	T    Tier
+	Pats []string // P(N) then S(k) \ P(N)
+	NP   int      // number of P patterns
+	HP   [][]byte // haystacks for P patterns (without embeddings)
+	HPE  [][]byte // haystacks for small P patterns (with embeddings)
+	NPE  int      // P patterns [0,NPE) get HPE
 }
 
 var embedJ1 = []int{0, 33}
@@ -200,7 +200,7 @@ func SweepPlan(sp *Space, level, rule string, needEng, needRef bool, body PerHay
 			if u%997 == 0 || u == len(sp.Pats)-1 {
 				w.Sample(map[string]any{"pattern": p, "mode": mode, "strategy": cx.Strategy, "haystacks": len(hs),
 					"first_haystacks": []string{strconv.Quote(string(hs[min(1, len(hs)-1)])), strconv.Quote(string(hs[len(hs)/2])), strconv.Quote(string(hs[len(hs)-1]))},
-					"nontrivial": nt})
+					"nontrivial":      nt})
 			}
 		}
 	}
